@@ -8,7 +8,21 @@
 //! pcancel re-press, stacking restarts the timeout).
 //! Part 2: long random histories that stack 17-40 one-shot taps (the table holds 16), judged by
 //! invariants only: what the first following key sees, the second following key and a late probe
-//! key unmodified, nothing down and nothing pending at the end.
+//! key unmodified, nothing down and nothing pending at the end. In a third of the histories the two
+//! plain keys overlap and the later-pressed one is released first and pressed again: that press
+//! must be plain whatever the variant.
+//! Part 3 (exhaustive): ONE one-shot key (key, layer, output chord) and TWO plain follow-up keys.
+//! The one-shot key is tapped (release processed in the next tick or the one after), held to the
+//! end, or tapped while a plain key is already down; then EVERY interleaving of 2..=K presses and
+//! releases of the two plain keys follows (K = 5 quick, 6 thorough), the first follow-up event after
+//! every gap in {0,1,T-1,T,T+1}, the others after every gap in {0,1,rapid-event-delay+1}. Judged per
+//! tick by the reference model (a release variant ends at the first release of ANY key pressed after
+//! the one-shot - first-pressed or not -, never at the release of a key held since before it) and,
+//! independently of the model, by families (g)/(h) read off the OS stream: while the one-shot key is
+//! held every key is modified; after a tap the first key pressed afterwards is modified iff in time;
+//! press variants: no later key is; release variants: keys pressed before that first release are
+//! (iff in time), no key pressed after it is. Families (g)/(h) also judge every schedule of part 1
+//! that has this form.
 
 use super::c04::util::*;
 use crate::core::rng::Rng;
@@ -76,7 +90,10 @@ fn shape_roles(shape: usize) -> [Role; 3] {
     match shape {
         0 => [Role::OsKeys(vec!["lsft"]), Role::OsKeys(vec!["lctl"]), Role::Plain("c", "c")],
         1 => [Role::OsLayer, Role::Plain("b", "1"), Role::Plain("c", "2")],
-        _ => [Role::OsKeys(vec!["lctl", "lalt"]), Role::OsLayer, Role::Plain("c", "2")],
+        2 => [Role::OsKeys(vec!["lctl", "lalt"]), Role::OsLayer, Role::Plain("c", "2")],
+        // shapes 3 and 4 (one one-shot key, two plain follow-up keys) are used by the follow-up part only
+        3 => [Role::OsKeys(vec!["lsft"]), Role::Plain("b", "b"), Role::Plain("c", "c")],
+        _ => [Role::OsKeys(vec!["lctl", "lalt"]), Role::Plain("b", "b"), Role::Plain("c", "c")],
     }
 }
 
@@ -158,12 +175,17 @@ pub struct Model {
     pub ends_by_input: u64,
     pub max_stack: u64,
     pub activations: u64,
+    /// release variants: endings caused by the release of a follow-up key that was NOT the first
+    /// key pressed after the one-shot
+    pub ends_by_later_follower_release: u64,
+    /// release variants: releases of a key held since before the one-shot (must not end it)
+    pub preheld_releases_ignored: u64,
 }
 
 impl Model {
     pub fn new(p: P) -> Self {
         let roles = p.roles();
-        Model { p, roles, q: VecDeque::new(), pause: 0, st: vec![], diff: OsDiff::default(), keys: VecDeque::new(), released: VecDeque::new(), other: VecDeque::new(), timeout: 0, rel_next: false, ends_by_timeout: 0, ends_by_input: 0, max_stack: 0, activations: 0 }
+        Model { p, roles, q: VecDeque::new(), pause: 0, st: vec![], diff: OsDiff::default(), keys: VecDeque::new(), released: VecDeque::new(), other: VecDeque::new(), timeout: 0, rel_next: false, ends_by_timeout: 0, ends_by_input: 0, max_stack: 0, activations: 0, ends_by_later_follower_release: 0, preheld_releases_ignored: 0 }
     }
     pub fn push(&mut self, press: bool, c: usize) {
         self.q.push_back((press, c));
@@ -175,8 +197,17 @@ impl Model {
         let do_rel = if self.keys.is_empty() {
             true
         } else if !self.keys.contains(&c) {
-            if !self.p.end.is_press() && self.other.contains(&c) {
-                self.rel_next = true;
+            // a release variant ends at the first release of ANY key pressed after the one-shot
+            // (not only of the first such key); a key held since before the one-shot does not count
+            if !self.p.end.is_press() {
+                if self.other.contains(&c) {
+                    if !self.rel_next && self.other.front() != Some(&c) {
+                        self.ends_by_later_follower_release += 1;
+                    }
+                    self.rel_next = true;
+                } else if matches!(self.roles[c], Role::Plain(..)) {
+                    self.preheld_releases_ignored += 1;
+                }
             }
             true
         } else {
@@ -507,6 +538,65 @@ fn family_check(p: &P, keys: &[usize], gaps: &[usize], gv: &[u32], outs: &[OutEv
             return Some(("f:stacking-combines-and-restarts", Ok(())));
         }
     }
+    // (g)/(h): one one-shot key, tapped (g) or held to the end (h), optionally with plain keys held
+    // since before it, followed by ANY interleaving of presses and releases of plain keys. Read off
+    // the OS stream: while held every key is modified; after a tap the first key pressed afterwards
+    // is modified iff in time; press variants: no later key is modified; release variants: keys
+    // pressed before the first release of any key pressed after the one-shot are modified (iff in
+    // time), no key pressed after that release is; releasing a key held since before does not end it.
+    let os_pos: Vec<usize> = (0..keys.len()).filter(|i| is_os(keys[*i])).collect();
+    let tapped = os_pos.len() == 2 && os_pos[1] == os_pos[0] + 1;
+    if !os_pos.is_empty() && os_pos.iter().all(|i| keys[*i] == o) && (os_pos.len() == 1 || tapped) && *os_pos.last()? + 1 < keys.len() {
+        let i_os = os_pos[0];
+        // every event before the one-shot press must be a press of a distinct plain key
+        let mut down = [false; 3];
+        for &k in &keys[..i_os] {
+            if down[k] {
+                return None;
+            }
+            down[k] = true;
+        }
+        let x = pr[i_os];
+        let mut after = [false; 3];
+        let mut n_press = i_os; // index into ctx: the pre-held keys' presses come first
+        let mut first_seen = false;
+        let mut ended_by_release = false;
+        for i in (*os_pos.last()? + 1)..keys.len() {
+            let k = keys[i];
+            if down[k] {
+                down[k] = false;
+                if after[k] {
+                    ended_by_release = true;
+                }
+                continue;
+            }
+            down[k] = true;
+            after[k] = true;
+            let Some(c) = ctx.get(n_press) else { return bad("g:follower-press-missing", format!("plain key press #{n_press} of the schedule produced no key press")) };
+            let got = modified_by(&roles, o, k, c.1, &c.2);
+            let in_time = pr[i] < x + t;
+            let (expect, sig): (bool, &str) = if !tapped {
+                (true, "h:held-one-shot-not-acting-as-plain-key")
+            } else if !first_seen {
+                (in_time, if in_time { "g:first-follower-not-modified" } else { "g:first-follower-modified-after-expiry" })
+            } else if p.end.is_press() {
+                (false, "g:press-variant-later-follower-modified")
+            } else if ended_by_release {
+                (false, "g:release-variant-press-after-first-follower-release-modified")
+            } else {
+                (in_time, if in_time { "g:release-variant-overlapping-follower-not-modified" } else { "g:release-variant-overlapping-follower-modified-after-expiry" })
+            };
+            if got != expect {
+                return bad(sig, format!("one-shot {} (processed in tick {x}, T={t}), event #{i} of the schedule (processed in tick {} when nothing pauses input): expected {}modified; {}", if tapped { "tapped" } else { "held" }, pr[i], if expect { "" } else { "un" }, desc(n_press)));
+            }
+            first_seen = true;
+            n_press += 1;
+        }
+        if ctx.len() != n_press {
+            return bad("g:extra-plain-press", format!("{} plain key presses in the schedule, {} written", n_press, ctx.len()));
+        }
+        return Some((if tapped { "g:tap-then-interleaved-followers" } else { "h:held-then-interleaved-followers" }, Ok(())));
+    }
     None
 }
 
@@ -640,6 +730,9 @@ struct Plan2 {
     pure_expiry: bool,
     p1: usize,
     p2: usize,
+    /// the two plain keys overlap: p1 down, the other key down, the other key released FIRST, the
+    /// other key pressed again, released, p1 released
+    overlap: bool,
 }
 
 fn plan2(seed: u64, idx: u64) -> Plan2 {
@@ -682,7 +775,22 @@ fn plan2(seed: u64, idx: u64) -> Plan2 {
     let pure_expiry = rng.chance(1, 6);
     let p1 = rng.usize(2);
     let p2 = rng.usize(2);
-    if !pure_expiry {
+    let overlap = !pure_expiry && rng.chance(1, 3);
+    if overlap {
+        let q = 1 - p1;
+        h.push(Ev::T(1 + rng.below(3) as u32));
+        h.push(Ev::P(code(PLAIN_PHYS[p1])));
+        h.push(Ev::T(rng.below(4) as u32));
+        h.push(Ev::P(code(PLAIN_PHYS[q])));
+        h.push(Ev::T(1 + rng.below(4) as u32));
+        h.push(Ev::R(code(PLAIN_PHYS[q])));
+        h.push(Ev::T(if rng.coin() { rng.below(3) as u32 } else { cfg.red as u32 + 3 + rng.below(5) as u32 }));
+        h.push(Ev::P(code(PLAIN_PHYS[q])));
+        h.push(Ev::T(1 + rng.below(4) as u32));
+        h.push(Ev::R(code(PLAIN_PHYS[q])));
+        h.push(Ev::T(1 + rng.below(3) as u32));
+        h.push(Ev::R(code(PLAIN_PHYS[p1])));
+    } else if !pure_expiry {
         h.push(Ev::T(1 + rng.below(3) as u32));
         h.push(Ev::P(code(PLAIN_PHYS[p1])));
         h.push(Ev::T(rng.below(12) as u32 + 1));
@@ -697,7 +805,7 @@ fn plan2(seed: u64, idx: u64) -> Plan2 {
     h.push(Ev::P(code(PLAIN_PHYS[0])));
     h.push(Ev::T(2));
     h.push(Ev::R(code(PLAIN_PHYS[0])));
-    Plan2 { cfg, taps, hist: h, distinct, pure_expiry, p1, p2 }
+    Plan2 { cfg, taps, hist: h, distinct, pure_expiry, p1, p2, overlap }
 }
 
 struct Res2 {
@@ -769,7 +877,13 @@ fn run2(pl: &Plan2, text: &str, h: &[Ev], full_checks: bool) -> Option<Res2> {
     }
     let plain_codes: Vec<u16> = PLAIN_OUT.iter().flat_map(|r| r.iter().map(|n| kc(n))).collect();
     let ctx = presses_with_context(&r.outs, &plain_codes);
-    let n_expected = if pl.pure_expiry { 1 } else { 3 };
+    let n_expected = if pl.pure_expiry {
+        1
+    } else if pl.overlap {
+        4
+    } else {
+        3
+    };
     if full_checks && ctx.len() != n_expected {
         r.verdict = bad("stacked:plain-key-count", format!("{} plain key presses were injected, {} were output", n_expected, ctx.len()));
         return Some(r);
@@ -782,7 +896,19 @@ fn run2(pl: &Plan2, text: &str, h: &[Ev], full_checks: bool) -> Option<Res2> {
             return Some(r);
         }
     }
-    if full_checks && !pl.pure_expiry && ctx.len() == 3 {
+    if full_checks && pl.overlap && ctx.len() == 4 {
+        // p1 down, q down, q up, q down again: whatever the variant (the one-shots ended at p1's press
+        // or at q's release, the first release of a key pressed after them), the second press of q is plain
+        let q = 1 - pl.p1;
+        let first = &ctx[0];
+        let third = &ctx[2];
+        r.first_key_mods = first.2.len() as u64;
+        if third.1 != kc(PLAIN_OUT[q][0]) || third.2.iter().any(|c| *c != first.1) {
+            r.verdict = bad("stacked:key-after-first-follower-release-modified", format!("after {} stacked one-shots: first key down, second key down, second key released, second key pressed again: {}", pl.taps.len(), show(third)));
+            return Some(r);
+        }
+    }
+    if full_checks && !pl.pure_expiry && !pl.overlap && ctx.len() == 3 {
         // second following key: never modified
         let second = &ctx[1];
         if second.1 != kc(PLAIN_OUT[pl.p2][0]) || !second.2.is_empty() {
@@ -872,6 +998,101 @@ fn n_exh_cases(tier: Tier) -> u64 {
 fn n_random(tier: Tier) -> u64 {
     tier.sel(4_000, 80_000)
 }
+// ---- part 3: two follow-up keys
+
+/// parameter sets of the follow-up part: one one-shot key (key, layer, output chord) + two plain keys
+fn param_sets_fol(tier: Tier) -> Vec<P> {
+    let ts: &[u16] = tier.sel(&[3, 80], &[2, 3, 9, 80]);
+    let mut v = vec![];
+    for shape in [3usize, 1, 4] {
+        for end in ENDS {
+            for &t in ts {
+                for red in [5u16, 0, 1] {
+                    v.push(P { shape, end, t, red });
+                }
+            }
+        }
+    }
+    v
+}
+/// cases per parameter set: prefix kind (tap with gap 0, tap with gap 1, held, plain key b held since
+/// before the tap) x first two follow-up events
+const FOL_SUB: u64 = 16;
+/// maximal number of follow-up events
+fn fol_k(tier: Tier) -> usize {
+    tier.sel(5, 6)
+}
+fn n_fol_cases(tier: Tier) -> u64 {
+    param_sets_fol(tier).len() as u64 * FOL_SUB
+}
+const FOL_PREFIX_NAMES: [&str; 4] = ["tap0", "tap1", "held", "preheld"];
+
+/// mixed-radix odometer: position i takes every value of choices[i]
+fn for_each_choice(choices: &[Vec<usize>], mut f: impl FnMut(&[usize]) -> bool) {
+    if choices.iter().any(|c| c.is_empty()) {
+        return;
+    }
+    let mut ix = vec![0usize; choices.len()];
+    let mut cur: Vec<usize> = choices.iter().map(|c| c[0]).collect();
+    loop {
+        if !f(&cur) {
+            return;
+        }
+        let mut i = 0;
+        loop {
+            if i == choices.len() {
+                return;
+            }
+            ix[i] += 1;
+            if ix[i] < choices[i].len() {
+                cur[i] = choices[i][ix[i]];
+                break;
+            }
+            ix[i] = 0;
+            cur[i] = choices[i][0];
+            i += 1;
+        }
+    }
+}
+
+/// structure of a schedule of follow-up events (plain keys only, after the one-shot press at
+/// position `i_os`): (two keys pressed after the one-shot overlap and the later-pressed one is
+/// released first and a further press follows, the same with the earlier-pressed one released first)
+fn overlap_kind(keys: &[usize], i_os: usize) -> (bool, bool) {
+    let mut order: Vec<usize> = vec![]; // keys pressed after the one-shot that are down, in press order
+    let mut down = [false; 3];
+    for &k in &keys[..i_os] {
+        down[k] = true;
+    }
+    // how the first release of a key pressed after the one-shot came about: 0 none yet, 1 a single
+    // key was down, 2 later-pressed of two released first, 3 earlier-pressed of two released first
+    let mut first_release = 0u8;
+    let (mut lifo, mut fifo) = (false, false);
+    for &k in keys[i_os + 1..].iter().filter(|k| **k != keys[i_os]) {
+        if down[k] {
+            down[k] = false;
+            if let Some(pos) = order.iter().position(|x| *x == k) {
+                if first_release == 0 {
+                    first_release = if order.len() < 2 {
+                        1
+                    } else if pos + 1 == order.len() {
+                        2
+                    } else {
+                        3
+                    };
+                }
+                order.remove(pos);
+            }
+        } else {
+            down[k] = true;
+            order.push(k);
+            lifo |= first_release == 2;
+            fifo |= first_release == 3;
+        }
+    }
+    (lifo, fifo)
+}
+
 /// the family schedules need 5 events; with N = 4 they are run in addition
 fn family_schedules() -> Vec<Vec<usize>> {
     vec![vec![0, 0, 2, 2, 2], vec![0, 2, 2, 2, 0], vec![0, 0, 0, 0, 2], vec![0, 0, 1, 1, 2]]
@@ -962,6 +1183,137 @@ impl C06Check {
         }
     }
 
+    /// part 3: a one-shot key tapped (or held, or tapped while a plain key is already down) and then
+    /// every interleaving of presses and releases of TWO plain follow-up keys
+    fn run_followers(&self, ctx: &Ctx, j: u64, out: &mut CaseOut) {
+        let ps = param_sets_fol(ctx.tier);
+        let p = ps[(j / FOL_SUB) as usize].clone();
+        let sub = (j % FOL_SUB) as usize;
+        let kind = sub / 4;
+        let f1 = 1 + (sub & 1);
+        let f2 = 1 + ((sub >> 1) & 1);
+        let text = p.render();
+        let kmax = fol_k(ctx.tier);
+        // one table of gap values; positions choose from index subsets of it
+        let mut gv = gapvals(p.t);
+        for g in [0u32, 1, 2, p.red as u32 + 1] {
+            if !gv.contains(&g) {
+                gv.push(g);
+            }
+        }
+        gv.sort();
+        let gi = |vals: &[u32]| -> Vec<usize> {
+            let mut v: Vec<usize> = vals.iter().filter_map(|g| gv.iter().position(|x| x == g)).collect();
+            v.sort();
+            v.dedup();
+            v
+        };
+        let after_os = gi(&gapvals(p.t));
+        let inter = gi(&[0, 1, p.red as u32 + 1]);
+        let (prefix, prefix_gaps): (Vec<usize>, Vec<Vec<usize>>) = match kind {
+            0 => (vec![0, 0], vec![gi(&[0]), gi(&[0])]),
+            1 => (vec![0, 0], vec![gi(&[0]), gi(&[1])]),
+            2 => (vec![0], vec![gi(&[0])]),
+            _ => (vec![1, 0, 0], vec![gi(&[0]), gi(&[1]), gi(&[0])]),
+        };
+        let i_os = if kind == 3 { 1 } else { 0 };
+        let mut lock = match Lock::new(p.clone(), &text) {
+            Ok(l) => l,
+            Err(e) => {
+                out.violate("C06:config-rejected", format!("one-shot configuration rejected: {}", e.lines().next().unwrap_or("")), json!({"config": text, "error": e, "history": "", "observed": "parse error", "expected": "accepted"}));
+                return;
+            }
+        };
+        let codes = lock.codes;
+        let tail = p.t as u32 + 4;
+        let mut bads: Vec<(Vec<Ev>, Bad, Vec<usize>, Vec<usize>)> = vec![];
+        for k in 2..=kmax {
+            let n = prefix.len() + k;
+            // positions 0..n: keys, n..2n: gap indices
+            let mut choices: Vec<Vec<usize>> = vec![];
+            for &x in &prefix {
+                choices.push(vec![x]);
+            }
+            choices.push(vec![f1]);
+            choices.push(vec![f2]);
+            for _ in 2..k {
+                choices.push(vec![1, 2]);
+            }
+            for g in &prefix_gaps {
+                choices.push(g.clone());
+            }
+            choices.push(after_os.clone());
+            for _ in 1..k {
+                choices.push(inter.clone());
+            }
+            let first_gaps: Vec<usize> = choices[n..].iter().map(|c| c[0]).collect();
+            for_each_choice(&choices, |c| {
+                let (keys, gaps) = c.split_at(n);
+                let h = schedule_to_hist(&codes, keys, gaps, &gv, tail, 1);
+                let mut bad = lock.run(&h);
+                if bad.is_none() {
+                    match family_check(&p, keys, gaps, &gv, &lock.outs) {
+                        Some((name, Ok(()))) => {
+                            out.inc("statement_checks");
+                            out.inc("statement_checks_followers");
+                            out.inc(&format!("family:{name}"));
+                        }
+                        Some((_, Err(b))) => bad = Some(b),
+                        None => {}
+                    }
+                }
+                out.inc("schedules");
+                out.inc("schedules_followers");
+                if gaps.iter().zip(first_gaps.iter()).all(|(a, b)| a == b) {
+                    let (lifo, fifo) = overlap_kind(keys, i_os);
+                    let ks: String = keys.iter().map(|k| char::from(b'a' + *k as u8)).collect();
+                    out.tag(format!("F:{}:{ks}", p.label()));
+                    if lifo {
+                        out.inc("follower_orders_later_pressed_released_first_then_press");
+                    }
+                    if fifo {
+                        out.inc("follower_orders_earlier_pressed_released_first_then_press");
+                    }
+                }
+                if let Some(b) = bad {
+                    bads.push((h, b, keys.to_vec(), gaps.to_vec()));
+                    match Lock::new(p.clone(), &text) {
+                        Ok(l) => {
+                            out.count("one_shot_activations", lock.model.activations);
+                            out.count("ended_by_timeout", lock.model.ends_by_timeout);
+                            out.count("ended_by_input", lock.model.ends_by_input);
+                            out.count("ended_by_release_of_later_pressed_follower", lock.model.ends_by_later_follower_release);
+                            out.count("preheld_key_releases_not_ending", lock.model.preheld_releases_ignored);
+                            lock = l
+                        }
+                        Err(_) => return false,
+                    }
+                    return bads.len() < 3;
+                }
+                clear_trace(&mut lock.sim);
+                true
+            });
+            if bads.len() >= 3 {
+                break;
+            }
+        }
+        out.count("one_shot_activations", lock.model.activations);
+        out.count("ended_by_timeout", lock.model.ends_by_timeout);
+        out.count("ended_by_input", lock.model.ends_by_input);
+        out.count("ended_by_release_of_later_pressed_follower", lock.model.ends_by_later_follower_release);
+        out.count("preheld_key_releases_not_ending", lock.model.preheld_releases_ignored);
+        for (h, b, keys, gaps) in bads.iter().take(3) {
+            report(out, &p, &text, h, b, Some((keys, gaps, &gv)));
+        }
+        out.inc("param_sets_x_prefix_followers");
+        out.inc(&format!("followers_prefix:{}", FOL_PREFIX_NAMES[kind]));
+        if sub == 6 && (j / FOL_SUB) % 12 == 1 {
+            out.sample = Some(json!({"part": "followers", "config": text, "params": p.label(), "prefix": FOL_PREFIX_NAMES[kind], "first_two_follow_up_keys": [f1, f2], "max_follow_up_events": kmax,
+                "gaps_after_one_shot": after_os.iter().map(|i| gv[*i]).collect::<Vec<_>>(), "gaps_between_follow_up_events": inter.iter().map(|i| gv[*i]).collect::<Vec<_>>(),
+                "example_history": render_hist(&schedule_to_hist(&codes, &[0, 0, 1, 2, 2, 2], &[0, 0, 1, 0, 1, 0], &gv, tail, 1))}));
+        }
+    }
+
     fn run_stacked(&self, ctx: &Ctx, idx: u64, out: &mut CaseOut) {
         let pl = plan2(ctx.seed, idx);
         let text = pl.cfg.render();
@@ -989,7 +1341,10 @@ impl C06Check {
         if pl.pure_expiry {
             out.inc("histories_pure_expiry");
         }
-        if pl.distinct && !pl.pure_expiry {
+        if pl.overlap {
+            out.inc("histories_stacked_overlapping_followers");
+        }
+        if pl.distinct && !pl.pure_expiry && !pl.overlap {
             out.inc("first_key_set_checks");
         }
         out.inc(&format!("stacked_variant:{}", if pl.cfg.mixed { "mixed" } else { pl.cfg.ends[0].name(false) }));
@@ -1010,33 +1365,44 @@ impl Check for C06Check {
         "C06"
     }
     fn n_cases(&self, ctx: &Ctx) -> u64 {
-        n_exh_cases(ctx.tier) + n_random(ctx.tier)
+        n_exh_cases(ctx.tier) + n_random(ctx.tier) + n_fol_cases(ctx.tier)
     }
     fn describe(&self, ctx: &Ctx, idx: u64) -> Value {
         if idx < n_exh_cases(ctx.tier) {
             let p = param_sets(ctx.tier)[(idx / 9) as usize].clone();
             json!({"part": "exhaustive", "config": p.render(), "first_two_keys": [(idx % 9) / 3, idx % 3], "max_events": exh_n(ctx.tier, p.t), "gaps": gapvals(p.t)})
-        } else {
+        } else if idx < n_exh_cases(ctx.tier) + n_random(ctx.tier) {
             let pl = plan2(ctx.seed, idx);
             json!({"part": "stacked", "config": pl.cfg.render(), "history": render_hist(&pl.hist)})
+        } else {
+            let j = idx - n_exh_cases(ctx.tier) - n_random(ctx.tier);
+            let p = param_sets_fol(ctx.tier)[(j / FOL_SUB) as usize].clone();
+            let sub = j % FOL_SUB;
+            json!({"part": "followers", "config": p.render(), "prefix": FOL_PREFIX_NAMES[(sub / 4) as usize], "first_two_follow_up_keys": [1 + (sub & 1), 1 + ((sub >> 1) & 1)], "max_follow_up_events": fol_k(ctx.tier)})
         }
     }
     fn run_case(&self, ctx: &Ctx, idx: u64) -> CaseOut {
         let mut out = CaseOut::new();
-        if idx < n_exh_cases(ctx.tier) {
+        let n1 = n_exh_cases(ctx.tier);
+        let n2 = n1 + n_random(ctx.tier);
+        if idx < n1 {
             self.run_exhaustive(ctx, idx, &mut out);
-        } else {
+        } else if idx < n2 {
             self.run_stacked(ctx, idx, &mut out);
+        } else {
+            self.run_followers(ctx, idx - n2, &mut out);
         }
         out
     }
     fn rule(&self) -> String {
-        "Part 1 (exhaustive, seed-independent): physical keys a b c in three shapes (two one-shot keys lsft / lctl + plain c; one-shot layer-while-held + two plain keys with distinct outputs per layer; one-shot output chord C-lalt + one-shot layer + plain c), all one-shot keys of one end variant; 4 variants x T in {3,80} (thorough {2,3,9,80}) x rapid-event-delay {5,0,1}; EVERY physically consistent schedule of 2..=N events (N = 5 for small T, 4 for T=80 plus the five-event family schedules, in quick; 6 / 5 in thorough) with every gap in {0,1,T-1,T,T+1}; keys still down are released T+2 ticks after the last event. Judged: per-tick equality with the one-shot reference model; nothing down / active / queued after the drain; and on the schedule families (tap, key, key-again), (tap alone), (hold, key, key, release), (tap, tap again, key), (tap, tap other one-shot, key) the statement is read directly off the OS stream: 'modified' = the one-shot's keys are down when the key's press is written (key / chord) or the key resolved on the one-shot layer. Part 2 (random, invariants only): 20 one-shot keys (keys, chords, two layers; one variant or mixed variants) + 2 plain keys, T in {30,200}; 17-40 one-shot taps in a row, then key, second key, and a probe key long after the timeout: the first key must see exactly the 16 most recent one-shots when the taps were distinct, the second key and the probe must be plain, nothing may be down, active or queued at the end, no crash. distinct_nontrivial = (parameter set, key sequence) for part 1, (variant, T, delay, taps, distinct) for part 2.".into()
+        "Part 1 (exhaustive, seed-independent): physical keys a b c in three shapes (two one-shot keys lsft / lctl + plain c; one-shot layer-while-held + two plain keys with distinct outputs per layer; one-shot output chord C-lalt + one-shot layer + plain c), all one-shot keys of one end variant; 4 variants x T in {3,80} (thorough {2,3,9,80}) x rapid-event-delay {5,0,1}; EVERY physically consistent schedule of 2..=N events (N = 5 for small T, 4 for T=80 plus the five-event family schedules, in quick; 6 / 5 in thorough) with every gap in {0,1,T-1,T,T+1}; keys still down are released T+4 ticks after the last event. Judged: per-tick equality with the one-shot reference model; nothing down / active / queued after the drain; and on the schedule families (tap, key, key-again), (tap alone), (hold, key, key, release), (tap, tap again, key), (tap, tap other one-shot, key) the statement is read directly off the OS stream: 'modified' = the one-shot's keys are down when the key's press is written (key / chord) or the key resolved on the one-shot layer. Part 2 (random, invariants only): 20 one-shot keys (keys, chords, two layers; one variant or mixed variants) + 2 plain keys, T in {30,200}; 17-40 one-shot taps in a row, then key, second key, and a probe key long after the timeout: the first key must see exactly the 16 most recent one-shots when the taps were distinct, the second key and the probe must be plain, nothing may be down, active or queued at the end, no crash; in a third of the histories the two plain keys overlap instead (first key down, second key down, second key released, second key pressed again, released, first key released) and that second press of the second key must be plain (the one-shots ended at the first key's press or at the second key's release, whatever the variant). Part 3 (exhaustive, seed-independent): shapes with ONE one-shot key (lsft; layer-while-held; output chord C-lalt) and TWO plain keys b c, 4 variants x T in {3,80} (thorough {2,3,9,80}) x rapid-event-delay {5,0,1}; prefix = one-shot tapped with its release 0 or 1 ticks later / one-shot held until the end / b pressed one tick before the one-shot is tapped; then EVERY sequence of 2..=K events (K = 5 quick, 6 thorough) over the two plain keys (each event toggles its key: all press/release interleavings incl. later-pressed-released-first, earlier-pressed-released-first, re-presses), first follow-up event after every gap in {0,1,T-1,T,T+1}, every other one after every gap in {0,1,rapid-event-delay+1}; keys still down are released T+4 ticks after the last event. Judged: per-tick equality with the reference model, whose release variants end in the tick after the first release of ANY key pressed after the one-shot (not only the first-pressed one) and never at the release of a key held since before it; clean end; and families (g)/(h) read off the OS stream without the model: one-shot held -> every follow-up press modified; tapped -> first follow-up press modified iff processed before tick x+T (x = tick of the one-shot press); press variants: no later press modified; release variants: a press before the first release of a key pressed after the one-shot is modified iff in time, a press after that release is never modified. (g)/(h) are also applied to every part-1 schedule of this form. distinct_nontrivial = (parameter set, key sequence) for parts 1 and 3, (variant, T, delay, taps, distinct) for part 2.".into()
     }
     fn assumptions(&self) -> Vec<String> {
         vec![
             "boundary conventions of appendix A: an event injected after p ticks is processed in tick p+1 at the earliest, one queued event per tick; a one-shot processed in tick x expires in tick x+T (its release is written before any press of that tick), so a key processed in tick <= x+T-1 is modified".into(),
-            "press variants release the one-shot rapid-event-delay ticks after the next key's press was processed and pause input processing meanwhile; release variants end in the tick after the first newly pressed key's release".into(),
+            "press variants release the one-shot rapid-event-delay ticks after the next key's press was processed and pause input processing meanwhile; release variants end in the tick after the first release of any key that was pressed after the one-shot became active (whichever of several such keys is released first); the release of a key that was already down when the one-shot was pressed does not end it".into(),
+            "families (g)/(h) compute processing ticks as 'one event per tick, nothing pauses input'; that is used only where it holds: for the first key pressed after the one-shot and, in release variants, for keys pressed before the first follow-up release (release variants never pause input); press variants' later keys are only required to be unmodified, which does not depend on the tick".into(),
+            "part 3 enumerates the follow-up keys' events only over the two plain keys; re-presses of the one-shot key between follow-up events are covered by part 1 up to its N".into(),
             "the guide says the first activated one-shot's variant governs a stack while the code uses the most recent one; stacks of mixed variants are therefore judged only by the variant-independent invariants (second key, probe, clean end)".into(),
             "fewer than 32 events pending (the stacked driver lets time pass when the queue reaches 27), at most 8 one-shot layer taps per history (fewer than 12 held layers)".into(),
             "one kanata instance runs all schedules of an exhaustive case, each followed by a drain until the model is quiescent; a disagreement is re-judged on a fresh instance".into(),
@@ -1054,6 +1420,15 @@ impl Check for C06Check {
             ("histories_more_than_16_stacked", 1_000),
             ("first_key_set_checks", 500),
             ("max_stack_depth", 16),
+            ("histories_stacked_overlapping_followers", ctx.tier.sel(800, 16_000)),
+            ("schedules_followers", ctx.tier.sel(2_000_000, 20_000_000)),
+            ("statement_checks_followers", ctx.tier.sel(2_000_000, 20_000_000)),
+            ("family:g:tap-then-interleaved-followers", 1_000_000),
+            ("family:h:held-then-interleaved-followers", 500_000),
+            ("follower_orders_later_pressed_released_first_then_press", 1_000),
+            ("follower_orders_earlier_pressed_released_first_then_press", 1_000),
+            ("ended_by_release_of_later_pressed_follower", 20_000),
+            ("preheld_key_releases_not_ending", 50_000),
         ]
     }
     fn exhaustive(&self, _ctx: &Ctx) -> bool {
